@@ -984,7 +984,52 @@ func extraC17Wave2(c *Ctx, r *Report) {
 						}
 					}
 				})
-				return found
+				if found {
+					return true
+				}
+				// the compute function is built by a small factory (`LoadOrCompute(key, rl.limiterFactory(limit))`): the
+				// parent returns the closure, and every call of the parent is an argument of a get-or-create
+				returnsIt := len(returnsOf(p)) > 0
+				for _, ret := range returnsOf(p) {
+					if len(ret.Results) != 1 {
+						returnsIt = false
+						continue
+					}
+					mc, ok := ret.Results[0].(*ssa.MakeClosure)
+					if !ok || mc.Fn != ssa.Value(g) {
+						returnsIt = false
+					}
+				}
+				if !returnsIt {
+					return false
+				}
+				sites, all := 0, true
+				for _, h := range c.Funcs {
+					eachInstr(h, func(hi ssa.Instruction) {
+						call, ok := hi.(*ssa.Call)
+						if !ok || call.Call.StaticCallee() != p {
+							return
+						}
+						sites++
+						used := false
+						for _, ref := range *call.Referrers() {
+							if c2 := getCall(ref); c2 != nil {
+								n := describeCall(c2).Name
+								if n == "LoadOrCompute" || n == "LoadOrStore" || n == "Compute" {
+									for _, a := range c2.Args {
+										if a == ssa.Value(call) {
+											used = true
+										}
+									}
+								}
+							}
+						}
+						if !used {
+							all = false
+						}
+					})
+				}
+				return sites > 0 && all
 			}
 			// the bucket is built in the compute function itself, or in a constructor every caller of which is one
 			var inAtomic func(g *ssa.Function, d int) bool
